@@ -207,3 +207,12 @@ func dumpExcerpt(dump string) string {
 
 var _ = rand.Int
 var _ = time.Now
+
+func keys(m map[string]bool) []string {
+	var k []string
+	for p := range m {
+		k = append(k, p)
+	}
+	sort.Strings(k)
+	return k
+}
